@@ -349,8 +349,8 @@ Definition lower_import (n : nsp) (names : list (ident * option ident)) : res (l
           | None =>
               if has_dot (fst al)
               then get_assign n (before_dot (fst al)) (call (Name "__import__") [cstr (fst al)])   (* binds the top-level package *)
-              else get_assign n (fst al) (call (Attribute (Name "importlib") "import_module") [cstr (fst al)])
-          | Some a => get_assign n a (call (Attribute (Name "importlib") "import_module") [cstr (fst al)])
+              else get_assign n (fst al) (call (Attribute (Name "__ol_importlib") "import_module") [cstr (fst al)])
+          | Some a => get_assign n a (call (Attribute (Name "__ol_importlib") "import_module") [cstr (fst al)])
           end) names.
 
 Definition lower_importfrom (n : nsp) (p : path) (module : option ident) (names : list (ident * option ident)) (level : Z)
@@ -373,8 +373,8 @@ Section Stmts.
   Definition while_comp (var : ident) (body test : expr) : expr :=
     ListComp body
       [(Name var,
-        call (Attribute (Name "itertools") "takewhile")
-             [Lambda [] [var] None [] [] None [] test; call (Attribute (Name "itertools") "count") []],
+        call (Attribute (Name "__ol_itertools") "takewhile")
+             [Lambda [] [var] None [] [] None [] test; call (Attribute (Name "__ol_itertools") "count") []],
         [], false)].
 
   Definition if_result (test : expr) (body orelse : list expr) : expr :=
@@ -578,7 +578,7 @@ Fixpoint visits (f : stmt -> bool) (s : stmt) : bool :=
   | _ => false
   end.
 
-Definition import_lib (lib : string) : expr := NamedExpr lib (call (Name "__import__") [cstr lib]).
+Definition import_lib (lib : string) : expr := NamedExpr ("__ol_" ++ lib)%string (call (Name "__import__") [cstr lib]).
 
 Definition lower_module (cfg : config) (root : symtab) (body : list stmt) : res expr :=
   let! g := generate_nsp (cfg_host_lt_312 cfg) root in
